@@ -948,8 +948,8 @@ func runConfig(c *core.Ctx, faults bool) {
 		return
 	}
 	/* fault-injecting configuration */
-	fam := t.Choose(6)
-	famName := []string{"torn", "token", "bitflip", "line", "stream-read-error", "writer-failure"}[fam]
+	fam := t.Choose(7)
+	famName := []string{"torn", "token", "bitflip", "line", "stream-read-error", "writer-failure", "stale-tail"}[fam]
 	n := 0
 	accept := func(got st.ConfigurableDistribution, f fault) {
 		// an accepted damaged configuration must still be a usable object
@@ -997,6 +997,29 @@ func runConfig(c *core.Ctx, faults bool) {
 			}
 			c.Count("outcome:accepted")
 			accept(got, f)
+		}
+	case 6:
+		// the file was written over an older, longer one that was not truncated:
+		// the document is followed by the remains of the older file.  That is
+		// not a configuration; the reader has to say so
+		older := append(append([]byte{}, data...), data...)
+		for k := len(data); k < len(older); k += 1 + len(data)/120 {
+			tail := older[k:]
+			if len(bytes.TrimSpace(tail)) == 0 {
+				continue
+			}
+			in := append(append([]byte{}, data...), tail...)
+			_, err, pv, site := read(&simReader{data: in, chunk: 4096, failAt: -1})
+			c.Steps++
+			n++
+			c.Count("fault:stale-tail")
+			if pv != nil {
+				fail("reader-no-panic", "panic-on-damaged-input|"+siteClass(site)+"|"+core.PanicClass(pv), "importing a configuration of %s followed by %d bytes of an older file panicked in %s: %v", d.name, len(tail), site, pv)
+			}
+			if err == nil {
+				fail("silent-corruption", "trailing-bytes-accepted", "the configuration of %s followed by the last %d bytes of an older, longer file (%s) was read without an error", d.name, len(tail), describeBytes(tail))
+			}
+			c.Count("outcome:error")
 		}
 	case 4:
 		// the stream fails at byte k: ReadJson must report the medium's error
@@ -1078,7 +1101,7 @@ func init() {
 			{ID: "C18-F1", Run: ProbeEmptyTable},
 		},
 		StepUnit: "inputs delivered to a reader (clean or damaged)",
-		Rule: "one run = one artifact drawn by the tape (scalar of 9 mutable + 7 constant types; dense/sparse vector or matrix of 9 element types, possibly a nested Slice/T view, derivatives and Hessians attached for real types; values incl. -0, subnormals, extreme exponents, type bounds; or a distribution of every family that has ExportConfig: 21 scalar families incl. nested mixtures and transforms; vector: normal, skew normal, t, logistic regression, scalar id / iid, vector id / iid, mixture, HMMs with tied emissions and start / final state restrictions, constrained HMM (equality constraints), hierarchical HMM (flat, nested and single-leaf trees); matrix: vector id / iid, HMM, mixture, shape HMM, constrained and hierarchical HMM, inverse Wishart, normal inverse Wishart) written by the real writer. Round-trip scenarios: decode(encode(x)) must be observably equal (elements, derivatives, shape, non-zero positions; for distributions the re-exported configuration, the parameter vector and the log-density at four drawn probe points). Fault scenarios: one fault family is drawn and EVERY position of it is enumerated on the artifact's bytes (all torn prefixes, bit flips, lost/duplicated bytes, zero-filled tails, duplicated blocks, splices with an older file, every number token replaced by 19 hostile tokens, lost/duplicated/swapped lines, gzip container valid/truncated at every byte/corrupt trailer/bare magic, missing file/directory/empty file; for configurations also a stream that fails at byte k and a writer whose medium fails at byte k); the reader must return an error or an object that is fully usable and survives its own round trip. Non-trivial = at least one input delivered. Distinct = distinct (artifact, codec, fault family).",
+		Rule: "one run = one artifact drawn by the tape (scalar of 9 mutable + 7 constant types; dense/sparse vector or matrix of 9 element types, possibly a nested Slice/T view, derivatives and Hessians attached for real types; values incl. -0, subnormals, extreme exponents, type bounds; or a distribution of every family that has ExportConfig: 21 scalar families incl. nested mixtures and transforms; vector: normal, skew normal, t, logistic regression, scalar id / iid, vector id / iid, mixture, HMMs with tied emissions and start / final state restrictions, constrained HMM (equality constraints), hierarchical HMM (flat, nested and single-leaf trees); matrix: vector id / iid, HMM, mixture, shape HMM, constrained and hierarchical HMM, inverse Wishart, normal inverse Wishart) written by the real writer. Round-trip scenarios: decode(encode(x)) must be observably equal (elements, derivatives, shape, non-zero positions; for distributions the re-exported configuration, the parameter vector and the log-density at four drawn probe points). Fault scenarios: one fault family is drawn and EVERY position of it is enumerated on the artifact's bytes (all torn prefixes, bit flips, lost/duplicated bytes, zero-filled tails, duplicated blocks, splices with an older file, every number token replaced by 19 hostile tokens, lost/duplicated/swapped lines, gzip container valid/truncated at every byte/corrupt trailer/bare magic, missing file/directory/empty file; for configurations also a stream that fails at byte k, a writer whose medium fails at byte k, and the document followed by the remains of an older, longer file, which must be rejected); the reader must return an error or an object that is fully usable and survives its own round trip. Non-trivial = at least one input delivered. Distinct = distinct (artifact, codec, fault family).",
 		Assumptions: []string{
 			"a torn or damaged dense table that is still a well-formed shorter/other table is accepted: the format has no checksum and the oracle does not invent one",
 			"sparse containers are not required to preserve the sign of zero",
